@@ -15,7 +15,7 @@ RULE = ("cross/auto/event correlograms: random spike trains on the dyadic lattic
         "distinct = distinct (reference, target, bin, window) / (samples, events, epochs, window)")
 PROVED = ("xcorr_histogram (bin p of the raw correlogram = number of pairs with lag in the half-open bin; sorted trains of any length), "
           "ccFwd_spec, ccBack_id, ccCount_counts, ccBins_counts, ccOuter_counts, perievent_window (slice = lags in [-w0, w1)), nbins_odd")
-NOT_PROVED = "xcorr_histogram (sliding lower index), normalisations, perievent-continuous nearest-sample/scatter: oracle + correspondence only"
+NOT_PROVED = "normalisations (rate, reverse), lag-0 zeroing, perievent-continuous nearest-sample / scatter: oracle + correspondence only"
 ASSUMPTIONS = ["spike times on a dyadic lattice so that the accumulated float bin edges are exact"]
 U = 125000000     # 2^-3 s in ns
 
